@@ -97,6 +97,9 @@ def _body(c, stats: Stats):
         module = shipped(c['name'])
         judge(module, c, 'shipped module %s' % c['name'], stats, ['shipped'])
         return
+    if c['kind'] == 'scale':
+        judge(scale_module(c['scale']), c, 'theory of %(n)d axioms (%(shape)s), claims = axioms %(picks)s, lemma=%(lemma)s' % c['scale'], stats, ['scale-theory'])
+        return
     desc = c['desc']
     try:
         module, built = MD.build_module(desc)
@@ -108,8 +111,34 @@ def _body(c, stats: Stats):
     judge(module, c, 'generated module (claims by %s, %d modules)' % (kinds, len(built.by_name)), stats, ['generated'] + ['claim-' + k for k in kinds])
 
 
+def scale_module(sc):
+    """A theory with many axioms (memory indices close to the 256 slots a Load can address, many memoisation candidates),
+    a few of them claimed and proved by loading them, optionally next to a lemma of the propositional library."""
+    import proof_generation.pattern as P
+    from proof_generation.proof import ProofExp
+    from proof_generation.proofs.propositional import Propositional
+
+    n, shape = sc['n'], sc['shape']
+    syms = [P.Symbol('c%d' % i) for i in range(n)]
+    if shape == 'twice': axioms = [P.App(x, x) for x in syms]
+    elif shape == 'chain': axioms = [P.App(syms[i], syms[(i + 1) % n]) for i in range(n)]
+    else: axioms = [P.Implies(x, P.App(x, syms[0])) for x in syms]
+    module = ProofExp(axioms=list(axioms), claims=[])
+    thunks = [module.load_axiom(axioms[i % n]) for i in sc['picks']]
+    if sc.get('lemma'):
+        prop = module.import_module(Propositional())
+        thunks.append(prop.imp_refl(axioms[sc['picks'][0] % n]))
+    module._claims = [th.conc for th in thunks]
+    module._proof_expressions = list(thunks)
+    return module
+
+
 @st.composite
 def cases(draw):
+    if draw(st.integers(0, 15)) == 0:
+        n = draw(st.sampled_from([40, 80, 84, 85, 86, 87, 90, 100, 120, 127, 128, 200, 250]))
+        return {'kind': 'scale', 'scale': {'n': n, 'shape': draw(st.sampled_from(['twice', 'chain', 'imp'])), 'lemma': draw(st.booleans()),
+                                           'picks': sorted(set([0, n - 1] + draw(st.lists(st.integers(0, n - 1), max_size=2))))}}
     return {'kind': 'generated', 'desc': draw(MD.module_descs(with_apps=True, rich=True, sym_pool=('a', 'b', 'c')))}
 
 
